@@ -14,6 +14,10 @@ PASCAL = ["Alpha", "Bravo", "Charlie", "Delta", "Echo", "Foxtrot", "Golf", "Hote
 SNAKE = ["id", "amount", "name", "title", "level", "x", "y", "coords", "kind", "flags", "count", "hp", "tp", "message", "items", "spells",
          "player_id", "map_id", "graphic", "spec", "rid", "size", "total", "mode", "code", "reply_code", "version", "weight", "usage",
          "gold", "npc_index", "session", "emote", "direction", "tiles", "rows", "warp", "key", "slot", "page", "news", "guild_tag"]
+# names that look like the generated methods' own locals / parameters (a generator that renames its locals
+# must still keep them apart from field names); none of them is a local of the pinned generator
+LOCAL_LIKE = ["old_mode", "position", "start_position", "remaining", "chunked", "old_length", "writer_length", "value", "values",
+              "length", "index", "start", "end", "mode", "obj", "instance", "buffer", "offset", "field", "self_", "cls", "other"]
 MEMBERS = ["Ok", "None", "Error", "Busy", "Player", "Spy", "Down", "Left", "Up", "Right", "Exists", "Created", "Changed", "Denied",
            "Temporary", "Permanent", "Normal", "Pk", "Wall", "Chest", "General", "Heal", "Light", "Dark", "EnterGame", "Yes", "No"]
 RESERVED_TYPES = {"packetfamily", "packetaction", "eoreader", "eowriter", "serializationerror", "protocolenummeta", "packetsequencer",
@@ -72,6 +76,8 @@ class SpecGen:
         rng = self.rng
         for _ in range(200):
             n = rng.choice(SNAKE) + (str(rng.randrange(2, 9)) if rng.random() < 0.4 else "")
+            if rng.random() < 0.06:
+                n = rng.choice(LOCAL_LIKE)
             if n not in ctx.scope and n + "_data" not in ctx.scope and not any(n == k + "_data" or n == k + "_length" for k in ctx.scope):
                 return n
         raise RuntimeError("field name pool exhausted")
